@@ -50,6 +50,7 @@ type assocCase struct {
 	Assoc string `json:"assoc"`
 	Ke    string `json:"ke"`
 	Req   string `json:"req"`
+	Tr    string `json:"tr"` // ip | scion (added by the check)
 }
 
 type assocDgram struct {
@@ -76,7 +77,7 @@ type callRec struct {
 	WantReq string   `json:"want_req"`
 	Reqs    []string `json:"reqs"` // requests on the wire from the poll of the case on: nts | plain
 	Ds      []dd     `json:"ds"`   // every datagram put into the client's socket during the call
-	Ret     string   `json:"ret"`  // ok | error | panic
+	Ret     string   `json:"ret"`  // ok | error | empty (no error, zero time) | panic
 	Nke     int      `json:"nke"`  // connections the key-exchange peer accepted during the call
 	Kes     []string `json:"kes"`
 	NtsOn   bool     `json:"ntson"`
@@ -101,7 +102,7 @@ func (l *lane) newClientIL(il bool) {
 	c.Auth.NTSKEFetcher.TLSConfig.MinVersion = tls.VersionTLS13
 	c.Auth.NTSKEFetcher.Port = strconv.Itoa(ntske.ServerPortIP)
 	c.Auth.NTSKEFetcher.Log = l.log
-	l.c = c
+	l.c, l.sc = c, nil
 }
 
 func genuineD(il bool, nts string) dgram {
@@ -128,6 +129,13 @@ type assocRun struct {
 // whether the call is still running.
 func (r *assocRun) answer(reqb []byte, from *net.UDPAddr, ds []dgram, want []string, phase string, final bool) {
 	l := r.l
+	var meta *scionMeta
+	if l.sc != nil {
+		var err error
+		if reqb, meta, err = unwrapSCION(reqb); err != nil {
+			l.t.Fatalf("lane %d: %v", l.idx, err)
+		}
+	}
 	var req ntp.Packet
 	if err := ntp.DecodePacket(&req, reqb); err != nil {
 		l.t.Fatal(err)
@@ -135,7 +143,7 @@ func (r *assocRun) answer(reqb []byte, from *net.UDPAddr, ds []dgram, want []str
 	il := req.ReceiveTime != (ntp.Time64{})
 	g := l.genuine(reqb)
 	// the association the request was built with (the client is blocked reading its socket)
-	kd := l.c.Auth.NTSKEFetcher.VerifData()
+	kd := l.fetcher().VerifData()
 	k := &keData{c2s: kd.C2sKey, s2c: kd.S2cKey}
 	reqk, sealable := "plain", false
 	var uid []byte
@@ -169,12 +177,15 @@ func (r *assocRun) answer(reqb []byte, from *net.UDPAddr, ds []dgram, want []str
 	pending := true
 	deliver := func(d dgram, w string, ph string) {
 		b, how := l.concretise(d, g, &req, il, *r.stale, k, uid, ncookies)
+		if meta != nil {
+			b = wrapSCION(b, meta)
+		}
 		sock := l.proxy
 		if d.Src == "other" {
 			sock = l.other
 		}
 		got, lg, why := l.watch(from, func() error { _, err := sock.WriteToUDP(b, from); return err })
-		r.out.Emit(assocDgram{c05rec: c05rec{Ev: "dgram", Case: r.c.Idx, Pos: len(r.cr.Ds), Il: il, Tr: "ip-nts", D: d, Want: w, Got: got, NtsOn: true,
+		r.out.Emit(assocDgram{c05rec: c05rec{Ev: "dgram", Case: r.c.Idx, Pos: len(r.cr.Ds), Il: il, Tr: r.tr(), D: d, Want: w, Got: got, NtsOn: true,
 			How: how, Flt: l.flt != nil, Lg: lg, Why: why}, Assoc: r.c.Assoc, Ke: r.c.Ke, Phase: ph, ReqK: reqk})
 		r.cr.Ds = append(r.cr.Ds, dd{D: d, Il: il, Got: got})
 		if got != "skip" {
@@ -210,11 +221,25 @@ func (r *assocRun) answer(reqb []byte, from *net.UDPAddr, ds []dgram, want []str
 	}
 }
 
+func (r *assocRun) tr() string {
+	if r.l.sc != nil {
+		return "scion-nts"
+	}
+	return "ip-nts"
+}
+
 func (r *assocRun) skip(why string) {
 	r.out.Emit(skipRec{Ev: "skip", Case: r.c.Idx, Why: why})
 }
 
-func reqKind(b []byte) string {
+func (l *lane) reqKind(b []byte) string {
+	if l.sc != nil {
+		pl, _, err := unwrapSCION(b)
+		if err != nil {
+			return "undecodable"
+		}
+		b = pl
+	}
 	if len(b) > 48 && uidOf(b) != nil {
 		return "nts"
 	}
@@ -224,7 +249,11 @@ func reqKind(b []byte) string {
 func (l *lane) runAssoc(c *assocCase, out *vio.Out, stale *ntp.Time64) bool {
 	ds, want := c.queue(l.t)
 	r := &assocRun{l: l, c: c, out: out, stale: stale}
-	l.newClientIL(c.Il)
+	if c.Tr == "scion" {
+		l.newSCIONClient(c.Il)
+	} else {
+		l.newClientIL(c.Il)
+	}
 	l.old = nil
 	buf := make([]byte, 4096)
 	okPlan := func(n int) kepeer.Plan { return kepeer.Plan{Kind: kepeer.Ok, Cookies: n, Port: proxyPort} }
@@ -248,13 +277,13 @@ func (l *lane) runAssoc(c *assocCase, out *vio.Out, stale *ntp.Time64) bool {
 				}
 				r.answer(req, from, nil, nil, "setup", true)
 			}
-			good = l.last.err == nil && (!c.Il || l.c.InInterleavedMode())
+			good = l.last.err == nil && (!c.Il || l.inIL())
 		}
 		if !good {
 			r.skip("setup: the client does not reach the association state")
 			return false
 		}
-		if kd := l.c.Auth.NTSKEFetcher.VerifData(); c.Assoc == "drained" {
+		if kd := l.fetcher().VerifData(); c.Assoc == "drained" {
 			l.old = &keData{c2s: kd.C2sKey, s2c: kd.S2cKey}
 			if len(kd.Cookie) != 1 {
 				r.skip("setup: pool of " + strconv.Itoa(len(kd.Cookie)) + " cookies instead of 1")
@@ -271,12 +300,17 @@ func (l *lane) runAssoc(c *assocCase, out *vio.Out, stale *ntp.Time64) bool {
 	}
 	l.ke.Take()
 	newCall := func(assoc, ke string) *callRec {
-		return &callRec{Ev: "call", Case: c.Idx, Tr: "ip-nts", Il: c.Il, Assoc: assoc, Ke: ke, WantReq: c.Req, Reqs: []string{}, Ds: []dd{},
+		return &callRec{Ev: "call", Case: c.Idx, Tr: r.tr(), Il: c.Il, Assoc: assoc, Ke: ke, WantReq: c.Req, Reqs: []string{}, Ds: []dd{},
 			Kes: []string{}, NtsOn: true}
 	}
 	endCall := func() {
 		cr := r.cr
 		switch {
+		case l.last.err == nil && l.last.ts.IsZero():
+			// MeasureClockOffsetSCION after a round in which every attempt failed: no error,
+			// no measurement (zero time, offset 0) - an observation the statement is silent
+			// about (DESIGN.md 8.2); as everywhere in harness/c03 it is not "a measurement"
+			cr.Ret = "empty"
 		case l.last.err == nil:
 			cr.Ret = "ok"
 		case strings.HasPrefix(l.last.err.Error(), "PANIC"):
@@ -308,7 +342,7 @@ func (l *lane) runAssoc(c *assocCase, out *vio.Out, stale *ntp.Time64) bool {
 			return false
 		}
 		if !c.Il {
-			r.cr.Reqs = append(r.cr.Reqs, reqKind(req))
+			r.cr.Reqs = append(r.cr.Reqs, l.reqKind(req))
 		}
 		// junk (a short datagram) until the attempt ends with an error: the cookie of the
 		// request is spent and none comes back
@@ -323,7 +357,7 @@ func (l *lane) runAssoc(c *assocCase, out *vio.Out, stale *ntp.Time64) bool {
 		if !c.Il {
 			l.finish()
 			endCall()
-			if n := len(l.c.Auth.NTSKEFetcher.VerifData().Cookie); n != 0 {
+			if n := len(l.fetcher().VerifData().Cookie); n != 0 {
 				r.skip("drain: " + strconv.Itoa(n) + " cookies left")
 				return false
 			}
@@ -341,7 +375,7 @@ func (l *lane) runAssoc(c *assocCase, out *vio.Out, stale *ntp.Time64) bool {
 		if !ok {
 			break
 		}
-		r.cr.Reqs = append(r.cr.Reqs, reqKind(req))
+		r.cr.Reqs = append(r.cr.Reqs, l.reqKind(req))
 		if first {
 			r.answer(req, from, ds, want, "poll", true)
 			first = false
